@@ -161,6 +161,26 @@ def run(ctx):
                           "own-output-rejected.jsonl", replay_text(i))
     ctx.oblige("oracle:own-output-verifies(impl)", own_rejected == 0, f"{own_rejected} rejected of {len(bases)}")
 
+    # a presentation that carries a forged third-party credential (tampered / unsigned / signed by the wrong key) is rejected
+    # wherever that credential stands in the list — in particular after a proof-less self-attested credential, whose
+    # exemption from the signature check is per credential
+    forged_accepted = n_mix = 0
+    for i, op in enumerate(ops):
+        if op.get("op") == "vp" and op.get("label", "").startswith("vpmix-"):
+            n_mix += 1
+            if op.get("mut") == "vp-mix-forged" and impl[i].startswith("ok"):
+                forged_accepted += 1
+                ctx.violation("C01:presentation-with-forged-credential-accepted:" + re.sub(r"[^A-Za-z,\[\]-]", "", op["label"]),
+                              f"{op['label']}: VerifyVP reports a presentation valid that carries a credential whose signature does not verify under a key of its issuer",
+                              "forged-in-vp.jsonl", replay_text(i))
+            if not op.get("mut") and not impl[i].startswith("ok"):
+                forged_accepted += 1
+                ctx.violation("C01:genuine-mixed-presentation-rejected:" + re.sub(r"[^A-Za-z,\[\]-]", "", op["label"]),
+                              f"{op['label']}: a presentation of genuine credentials and proof-less self-attested ones is rejected: {impl[i]}",
+                              "mixed-vp-rejected.jsonl", replay_text(i))
+    ctx.oblige("oracle:forged-credential-in-presentation-rejected-in-every-position(impl)", forged_accepted == 0 and (n_mix > 0 or bool(ctx.replay)),
+               f"{forged_accepted} wrong verdicts of {n_mix} mixed presentations")
+
     # the issuer refuses to sign (JSON-LD) what the context does not define — those members would not be covered by the signature
     signed_undefined = 0
     n_issue = 0
